@@ -200,6 +200,64 @@ def rules(ctx):
         facs = [(n_, expand_names(fn.node, n_.value)) for n_ in walk_no_nested(strip_docstring(fn.node.body)) if isinstance(n_, ast.Assign)
                 and len(n_.targets) == 1 and isinstance(n_.targets[0], ast.Name) and isinstance(n_.value, ast.BinOp)
                 and isinstance(n_.value.op, ast.Div) and 'max(' in src(expand_names(fn.node, n_.value.right))]
+        if not facs:
+            # the divisor is a name built up in several steps (m = max(..); if c: m = max(m, ..)): decide it by its definitions
+            cand = [n_ for n_ in walk_no_nested(strip_docstring(fn.node.body)) if isinstance(n_, ast.Assign) and len(n_.targets) == 1
+                    and isinstance(n_.targets[0], ast.Name) and isinstance(n_.value, ast.BinOp) and isinstance(n_.value.op, ast.Div)
+                    and src(n_.value.left) == valp and isinstance(n_.value.right, ast.Name)]
+            if cand and loops:
+                dn = cand[0].value.right.id
+                defs = [v_ for s2, v_ in assignments_to(fn.node, dn) if isinstance(v_, ast.AST)]
+                bad = []
+                full = False
+                for v_ in defs:
+                    if not (isinstance(v_, ast.Call) and is_name(v_.func, 'max')):
+                        bad.append("`%s = %s` is not a max(..)" % (dn, src(v_)[:50]))
+                        continue
+                    inabs = {id(x) for a_ in ast.walk(v_) if isinstance(a_, ast.Call) and is_name(a_.func, 'abs') for x in ast.walk(a_)}
+                    coefvars = set()
+                    for ge in ast.walk(v_):
+                        if isinstance(ge, (ast.GeneratorExp, ast.ListComp)):
+                            for gen in ge.generators:
+                                it = src(gen.iter)
+                                if it == '%s.values()' % src_name and isinstance(gen.target, ast.Name):
+                                    coefvars.add(gen.target.id)
+                                    full = full or not gen.ifs
+                                elif it == '%s.items()' % src_name and isinstance(gen.target, ast.Tuple) and len(gen.target.elts) == 2:
+                                    coefvars.add(src(gen.target.elts[1]))
+                                    full = full or not gen.ifs
+                    for x in ast.walk(v_):
+                        raw = (isinstance(x, ast.Name) and x.id in coefvars and isinstance(x.ctx, ast.Load)) or \
+                              (isinstance(x, ast.Call) and isinstance(x.func, ast.Attribute) and x.func.attr == 'get' and is_name(x.func.value, src_name)) or \
+                              (isinstance(x, ast.Subscript) and is_name(x.value, src_name))
+                        if raw and id(x) not in inabs:
+                            bad.append("`%s` enters the maximum without abs()" % src(x)[:40])
+                if not bad and not full:
+                    const_sep = any('abs(' in src(v_) and ('%s.get(()' % src_name in src(v_) or '%s[()]' % src_name in src(v_)) for v_ in defs)
+                    # guards that hold for the default value of an optional parameter (a new option left at its default)
+                    a_ = fn.node.args
+                    pos = a_.posonlyargs + a_.args
+                    dflt = {p_.arg: d_ for p_, d_ in zip(pos[len(pos) - len(a_.defaults):], a_.defaults)}
+                    dflt.update({p_.arg: d_ for p_, d_ in zip(a_.kwonlyargs, a_.kw_defaults) if d_ is not None})
+
+                    def by_default(t, pol):
+                        neg = False
+                        while isinstance(t, ast.UnaryOp) and isinstance(t.op, ast.Not):
+                            t, neg = t.operand, not neg
+                        if isinstance(t, ast.Name) and t.id in dflt and isinstance(dflt[t.id], ast.Constant):
+                            return bool(dflt[t.id].value) == (pol != neg)
+                        return False
+                    uncond = all(all(by_default(t, pol) for t, pol, o in g.edge_dominators(s2))
+                                 for s2, v_ in assignments_to(fn.node, dn) if isinstance(v_, ast.AST))
+                    if not (const_sep and uncond):
+                        bad.append("not every coefficient takes part in the maximum on every path")
+                ctx.inst('R18.5', fn, cand[0], not bad,
+                         "factor = value / (maximum of abs over all coefficients, built in steps)" if not bad else
+                         "scaling factor `%s`: %s - the largest magnitude of the result need not equal the requested value"
+                         % (src(cand[0].value), '; '.join(bad[:2])))
+                if bad:
+                    continue
+                facs = [(cand[0], ast.BinOp(left=cand[0].value.left, op=ast.Div(), right=ast.parse('max(abs(v) for v in %s.values())' % src_name, mode='eval').body))]
         if (not facs or not loops) and tgt == 'self':
             # the method may delegate to the module-level function: then the requested value must be handed on
             dcalls = [c for c in calls_in(fn.node, 'normalize') if isinstance(c.func, ast.Name) and c.args and is_name(c.args[0], src_name)]
